@@ -82,6 +82,11 @@ func concCmd(args []string) error {
 				return fmt.Errorf("schedule: %v", err)
 			}
 			if err := runDirected(enc, cat, d); err != nil {
+				if err == errHang {
+					bw.Flush()
+					fmt.Printf("{\"histories\":%d,\"hang\":true}\n", total+1)
+					os.Exit(0)
+				}
 				return err
 			}
 			total++
@@ -418,7 +423,14 @@ func runDirected(enc *json.Encoder, cat *Catalog, d directed) error {
 		}
 	}
 	// drain: let every goroutine finish what it started and run the rest of its program
+	drainStart := time.Now()
 	for round := 0; round < 10000; round++ {
+		if time.Since(drainStart) > hangTimeout {
+			// some call never comes back however long the others are given: the history ends here
+			h.add(ev{"e": "hang", "op": "hang", "g": 0, "direct": false})
+			h.flush(enc)
+			return errHang
+		}
 		busy := false
 		for _, k := range names {
 			g := gs[k]
@@ -488,7 +500,15 @@ func raceSweep(cat *Catalog, rnd *rand.Rand, stack string, rounds int) error {
 				}
 			}(g)
 		}
-		wg.Wait()
+		swept := make(chan struct{})
+		go func() { wg.Wait(); close(swept) }()
+		select {
+		case <-swept:
+		case <-time.After(hangTimeout):
+			// some call never came back (a deadlock): nothing more can be done with this process
+			fmt.Fprintf(os.Stderr, "HANG: a call did not return within %v during the race sweep (round %d, stack %s)\n", hangTimeout, round, stack)
+			os.Exit(67)
+		}
 		env.close()
 	}
 	return nil
